@@ -118,7 +118,32 @@ func init() {
 		"context.WithTimeout":  inCtxDerive,
 		"context.WithDeadline": inCtxDerive,
 		"context.WithCancel":   inCtxDerive,
-		"os.Remove":          func(ex *Exec, c *callCtx) (Value, bool) { return Iface{}, true },
+		// file set: os.Remove deletes the name (and reports success either way: the one caller in
+		// scope ignores not-exist errors); TouchFile/FileExists are the harness side of it
+		"os.Remove": func(ex *Exec, c *callCtx) (Value, bool) {
+			if p, ok := strConcrete(c.args[0].(Str)); ok {
+				c.s.removeFile(p)
+			} else {
+				unsupported("os.Remove with symbolic path")
+			}
+			return Iface{}, true
+		},
+		rt + "TempDir": func(ex *Exec, c *callCtx) (Value, bool) { return ex.strConst("/verifrt-vfs"), true },
+		rt + "TouchFile": func(ex *Exec, c *callCtx) (Value, bool) {
+			p, ok := strConcrete(c.args[0].(Str))
+			if !ok {
+				unsupported("TouchFile with symbolic path")
+			}
+			c.s.touchFile(p)
+			return nil, true
+		},
+		rt + "FileExists": func(ex *Exec, c *callCtx) (Value, bool) {
+			p, ok := strConcrete(c.args[0].(Str))
+			if !ok {
+				unsupported("FileExists with symbolic path")
+			}
+			return ex.tt.Bool(c.s.files[p]), true
+		},
 		"internal/bytealg.MakeNoZero": func(ex *Exec, c *callCtx) (Value, bool) {
 			n, ok := ex.concretize(c.s, c.args[0].(*Term), ex.lim.MaxAlloc*64, c.pend)
 			if !ok {
